@@ -12,8 +12,10 @@
                          UnregisterCallback -> cblist.remove(cbfunc) on that same object; another exception ->
                          the node level handleError callbacks
    A list object is shared between the dict and a running dispatch unless unregister_callback popped it in
-   between: then the dispatch holds an orphaned (empty) list, orph below.  Removing an absent callback raises
-   ValueError in the implementation; the model marks the run (rbad) and says nothing about it afterwards.
+   between: then the dispatch holds an orphaned (empty) list, orph below.  Since repository commit 4741ef2 the
+   handler is  if cbfunc in cblist: cblist.remove(cbfunc)  : a callback that is not in the held list (unregistered by
+   another callback meanwhile, or the held list is orphaned) is not removed and nothing else happens (before, the
+   ValueError of cblist.remove left the dispatch: finding C12/unregister-then-oneshot-breaks-dispatch).
 
    Messages are taken as already decoded here (Model.decode is the business of the msgs cases): RMsg pk e is an
    accepted line for parameter pk with imported entry e.
@@ -44,27 +46,24 @@ Record rst := {
   rcbs : cbname -> ckey -> list nat;
   rlog : list rinv;                              (* newest first *)
   rctr : nat;
-  rbad : bool;                                   (* a removal of an absent callback happened (ValueError) *)
 }.
 Definition rst0 (herr0 : list nat) : rst :=
   {| rcache := []; rcbs := fun cn k => match cn, k with CHErr, KNode => herr0 | _, _ => [] end;
-     rlog := []; rctr := 0; rbad := false |}.
+     rlog := []; rctr := 0 |}.
 
 Definition r_setcbs (s : rst) (cn : cbname) (k : ckey) (l : list nat) : rst :=
   {| rcache := rcache s;
      rcbs := fun cn' k' => if cbname_eqb cn cn' && ckey_eqb k k' then l else rcbs s cn' k';
-     rlog := rlog s; rctr := rctr s; rbad := rbad s |}.
+     rlog := rlog s; rctr := rctr s |}.
 Definition r_push (s : rst) (i : rinv) : rst :=
-  {| rcache := rcache s; rcbs := rcbs s; rlog := i :: rlog s; rctr := rctr s; rbad := rbad s |}.
-Definition r_setbad (s : rst) : rst :=
-  {| rcache := rcache s; rcbs := rcbs s; rlog := rlog s; rctr := rctr s; rbad := true |}.
+  {| rcache := rcache s; rcbs := rcbs s; rlog := i :: rlog s; rctr := rctr s |}.
 Definition r_setcache (s : rst) (c : list (key * entry)) : rst :=
-  {| rcache := c; rcbs := rcbs s; rlog := rlog s; rctr := rctr s; rbad := rbad s |}.
+  {| rcache := c; rcbs := rcbs s; rlog := rlog s; rctr := rctr s |}.
 
 (* the n-th invocation: recorded with its final behaviour *)
 Definition rinvoke (W : nat -> rbeh) (s : rst) (mk : beh -> rinv) : rst * rbeh :=
   let b := W (rctr s) in
-  ({| rcache := rcache s; rcbs := rcbs s; rlog := mk (r_fin b) :: rlog s; rctr := S (rctr s); rbad := rbad s |}, b).
+  ({| rcache := rcache s; rcbs := rcbs s; rlog := mk (r_fin b) :: rlog s; rctr := S (rctr s) |}, b).
 
 Fixpoint mem_nat (c : nat) (l : list nat) : bool :=
   match l with [] => false | x :: r => Nat.eqb c x || mem_nat c r end.
@@ -115,12 +114,17 @@ Definition rupd_step (W : nat -> rbeh) (cn : cbname) (lv : ckey) (pk : key) (e :
   let s2 := fst so2 in
   (match r_fin b with
    | BOk => s2
-   | BUnreg => if snd so2 || negb (mem_nat c (rcbs s2 cn lv)) then r_setbad s2
+   | BUnreg => if snd so2 || negb (mem_nat c (rcbs s2 cn lv)) then s2      (* if cbfunc in cblist: fails *)
                else r_setcbs s2 cn lv (remove1 c (rcbs s2 cn lv))
    | BExc => rcallback_herr W s2
    end, snd so2).
+Definition rcallback2 (W : nat -> rbeh) (cn : cbname) (lv : ckey) (pk : key) (e : entry) (s : rst) : rst * bool :=
+  fold_left (rupd_step W cn lv pk e) (rcbs s cn lv) (s, false).
 Definition rcallback (W : nat -> rbeh) (cn : cbname) (lv : ckey) (pk : key) (e : entry) (s : rst) : rst :=
-  fst (fold_left (rupd_step W cn lv pk e) (rcbs s cn lv) (s, false)).
+  fst (rcallback2 W cn lv pk e s).
+(* the list object the dispatch worked on was popped from the dict meanwhile *)
+Definition rpopped (W : nat -> rbeh) (cn : cbname) (lv : ckey) (pk : key) (e : entry) (s : rst) : bool :=
+  snd (rcallback2 W cn lv pk e s).
 
 (* the states in which the three levels of one callback name start, and the state after them *)
 Definition rlevel1 (W : nat -> rbeh) (cn : cbname) (pk : key) (e : entry) (s : rst) : rst := rcallback W cn KNode pk e s.
